@@ -24,6 +24,8 @@ pub struct Unit {
     pub loc_ty: Option<String>,
     /// extra CLI flags / features
     pub flags: Vec<String>,
+    /// false: only run lalrpop on it (text-level checks), do not compile
+    pub compile: bool,
 }
 
 #[derive(Clone, Debug, PartialEq, Eq)]
@@ -39,6 +41,8 @@ pub struct Query {
     pub budget: u64,
     pub toks: Option<Vec<QTok>>,
     pub text: Option<String>,
+    /// C27: (threads, inputs, schedule) - all inputs through one shared parser value
+    pub multi: Option<(usize, Vec<Query>, Vec<Vec<usize>>)>,
 }
 
 #[derive(Clone, Debug, PartialEq, Eq)]
@@ -53,6 +57,9 @@ pub enum Resp {
     Crash(String),
     /// module not compiled / not present
     Missing,
+    /// C27 answers
+    MultiOk(u64),
+    MultiMismatch { phase: String, thread: usize, step: usize, input: usize, expected: String, got: String },
 }
 
 pub struct Batch {
@@ -103,7 +110,42 @@ fn unesc(s: &str) -> String {
 }
 
 impl Query {
+    fn body(&self) -> (char, String) {
+        match (&self.toks, &self.text) {
+            (Some(toks), _) => {
+                let t: Vec<String> = toks
+                    .iter()
+                    .map(|t| match t {
+                        QTok::Tok { kind, lo, hi, idx } => format!("{kind},{lo},{hi},{idx}"),
+                        QTok::Err(m) => format!("E{}", esc(m).replace(';', ":")),
+                    })
+                    .collect();
+                ('T', t.join(";"))
+            }
+            (None, Some(text)) => ('S', esc(text)),
+            _ => ('T', String::new()),
+        }
+    }
     pub fn line(&self) -> String {
+        if let Some((threads, inputs, schedule)) = &self.multi {
+            let ins: Vec<String> = inputs
+                .iter()
+                .map(|q| {
+                    let (k, b) = q.body();
+                    format!("{k}{b}")
+                })
+                .collect();
+            let sched: Vec<String> = schedule.iter().map(|s| s.iter().map(|x| x.to_string()).collect::<Vec<_>>().join(",")).collect();
+            return format!(
+                "{}\t{}\tM\t{}\t{}\x1e{}\x1e{}",
+                self.module,
+                self.start,
+                self.budget,
+                threads,
+                ins.join("\x1d"),
+                sched.join("|")
+            );
+        }
         match (&self.toks, &self.text) {
             (Some(toks), _) => {
                 let t: Vec<String> = toks
@@ -141,6 +183,15 @@ pub fn parse_resp(line: &str) -> Resp {
         "PANIC" => Resp::Panic { msg: f.get(1).map(|s| unesc(s)).unwrap_or_default() },
         "BUDGET" => Resp::Budget,
         "NOPARSER" => Resp::Missing,
+        "MULTI_OK" => Resp::MultiOk(f.get(1).and_then(|x| x.parse().ok()).unwrap_or(0)),
+        "MULTI_MISMATCH" if f.len() >= 7 => Resp::MultiMismatch {
+            phase: f[1].to_string(),
+            thread: f[2].parse().unwrap_or(0),
+            step: f[3].parse().unwrap_or(0),
+            input: f[4].parse().unwrap_or(0),
+            expected: unesc(f[5]),
+            got: unesc(f[6]),
+        },
         other => Resp::Crash(format!("unparsable driver line: {other}")),
     }
 }
@@ -179,7 +230,7 @@ impl Batch {
     }
 
     fn compile(&mut self, ctx: &Ctx) {
-        let acc: Vec<usize> = (0..self.units.len()).filter(|&i| self.accepted[i]).collect();
+        let acc: Vec<usize> = (0..self.units.len()).filter(|&i| self.accepted[i] && self.units[i].compile).collect();
         if acc.is_empty() {
             return;
         }
@@ -347,6 +398,11 @@ impl Batch {
 
     pub fn compiled(&self, module: &str) -> bool {
         self.exe_of.contains_key(module)
+    }
+
+    /// text of the generated `.rs` of a unit (if lalrpop wrote one)
+    pub fn generated(&self, module: &str) -> Option<String> {
+        std::fs::read_to_string(self.dir.join("src_all").join(format!("{module}.rs"))).ok()
     }
 
     /// Remove the executables of this batch (call when done).
